@@ -46,8 +46,8 @@ def Rho.rel (ρ : Rho) (a b : String) : Bool := ρ.any fun p => p.1 == a && p.2 
 def Rho.toA (ρ : Rho) (b : String) : Option String := (ρ.find? fun p => p.2 == b).map (·.1)
 def Rho.toB (ρ : Rho) (a : String) : Option String := (ρ.find? fun p => p.1 == a).map (·.2)
 
-/-- one-to-one -/
-def Rho.wf (ρ : Rho) : Bool := nodupS (ρ.map (·.1)) && nodupS (ρ.map (·.2))
+/-- one-to-one: two pairs agree on the A side exactly when they agree on the B side -/
+def Rho.wf (ρ : Rho) : Bool := ρ.all fun p => ρ.all fun q => (p.1 == q.1) == (p.2 == q.2)
 
 /-- the identity correspondence of an environment -/
 def Rho.idOf (env : Env) : Rho :=
@@ -168,9 +168,7 @@ def view (ρ : Rho) (A : Env) (t : PTy) (v : PyVal) : PyVal :=
   | .union _ tag p => (match t with
     | .union _ cls => (match publicTag? A cls tag with
       | some td => if isVoidT td.ty then .union cls tag .none else .union cls tag (view ρ A td.ty p)
-      | none => (match catchAllOf A cls with
-        | some ca => .union cls ca .none
-        | none => v))
+      | none => .union cls ((catchAllOf A cls).getD tag) .none)
     | _ => v)
   | _ => v
 def viewList (ρ : Rho) (A : Env) (t : PTy) : List PyVal → List PyVal
